@@ -95,7 +95,11 @@ def run_for_property(prop, only=None):
             results.append(run_canary(c2, scratch))
     finally:
         shutil.rmtree(scratch, ignore_errors=True)
-    bad = [r for r in results if r["verdict"] not in ("fired", "silent")]
+    # a canary that no longer applies / compiles on an edited tree cannot be judged: recorded, not failed
+    bad = [r for r in results if r["verdict"] not in ("fired", "silent", "patch-does-not-apply", "does-not-compile")]
+    skipped = [r for r in results if r["verdict"] in ("patch-does-not-apply", "does-not-compile")]
+    if skipped:
+        print("  (%d canary(ies) skipped: patch does not apply / compile on this tree)" % len(skipped))
     for r in results:
         print("  canary %-40s %s %s" % (r["name"], r["verdict"], r.get("fired") or r.get("false_alarms") or r.get("detail", "")))
     # append to the evidence file written by the quick part of this run
@@ -107,6 +111,7 @@ def run_for_property(prop, only=None):
         ev["coverage"]["canaries_run"] = len(results)
         ev["coverage"]["canaries_fired"] = sum(1 for r in results if r["verdict"] == "fired")
         ev["coverage"]["benign_edits_silent"] = sum(1 for r in results if r["verdict"] == "silent")
+        ev["coverage"]["canaries_skipped"] = len(skipped)
         ev["wall_s"] = round(ev.get("wall_s", 0) + time.time() - t0, 1)
         json.dump(ev, open(ep, "w"), indent=1)
     except Exception:
